@@ -57,6 +57,15 @@ def templates(rng):
     # several places that fail: which one is reported
     T.append(("several-failing-fields", "{ " + ", ".join("%s: error '%s'" % (n, n) for n in ns) + " }", None))
     T.append(("several-failing-fields-comp", "{ [k]: error k for k in %s }" % json.dumps(ns), None))
+    # the same objects / arrays with several failing or tracing members handed to library functions that walk them
+    failing = "{ " + ", ".join("%s: error '%s'" % (n, n) for n in ns) + " }"
+    tracing = "{ " + ", ".join("%s: std.trace('%s', %d)" % (n, n, i) for i, n in enumerate(ns)) + " }"
+    fn = rng.choice(["std.mergePatch({}, %s)", "std.mergePatch(%s, {})", "std.mergePatch({ zz: 1 }, %s)", "std.prune(%s)", "std.objectValues(%s)",
+                     "std.mapWithKey(function(k, v) v, %s)", "std.manifestJsonEx(%s, ' ')", "std.toString(%s)", "std.manifestYamlDoc(%s)",
+                     "std.objectKeysValues(%s)", "std.manifestToml(%s)", "std.manifestPython(%s)", "%s == %s { zz: 1 }", "std.get({ o: %s }, 'o')",
+                     "std.manifestIni({ main: %s, sections: {} })", "std.assertEqual(%s, {})", "[v for v in std.objectValues(%s)]"])
+    T.append(("several-failing-fields-through-std", fn.replace("%s", failing), None))
+    T.append(("several-tracing-fields-through-std", fn.replace("%s", tracing), None))
     T.append(("several-failing-asserts", "{ " + ", ".join("assert false : '%s'" % n for n in ns[:4]) + ", a: 1 }", None))
     T.append(("several-failing-elements", "[ " + ", ".join("error '%s'" % n for n in ns) + " ]", None))
     T.append(("failing-tlas", "function(%s) [%s]" % (", ".join(ns[:4]), ", ".join(ns[:4])), [[n, "code", "error '%s'" % n] for n in ns[:4]]))
@@ -128,10 +137,12 @@ class Observer:
     @staticmethod
     def text_of(rec):
         cls, pay = outcome(rec)
+        # the order in which std.trace calls fire is part of what a user sees (stderr of the executable)
+        tr = "".join("\nTRACE %s:%s %s" % (os.path.basename(t[1]), t[2], t[0]) for t in rec.get("traces", []))
         if cls == "ok":
-            return ("ok", pay)
+            return ("ok", pay + tr)
         if cls == "err":
-            return ("err", pay.get("text", pay.get("msg")))
+            return ("err", pay.get("text", pay.get("msg")) + tr)
         return (cls, pay)
 
     def fresh(self, code, tla, ext, rng, pre_intern):
